@@ -62,6 +62,9 @@ TStep ==
        [] e.op = "fin" -> /\ IF ~st.base.on THEN Judge(e, <<"hash", NormSeed(st.seed, st.n), st.n>>)
                              ELSE Judge(e, <<"from", st.base.S, st.base.cnt, NormSeed(st.seed, st.n), st.n>>)
                           /\ st' = Empty
+       \* two hashers in two threads at the same time: each digest is that of its own message, every repetition the same
+       [] e.op = "par" -> /\ IF e.same /\ e.da = Hash(Stream(e.sa, e.la)) /\ e.db = Hash(Stream(e.sb, e.lb)) THEN UNCHANGED nbad ELSE Bad(e)
+                          /\ UNCHANGED <<st, ref, nref>>
        [] e.op = "hash" -> Judge(e, <<"hash", NormSeed(e.seed, e.len), e.len>>) /\ UNCHANGED st
        [] e.op = "hmac" -> Judge(e, <<"hmac", NormSeed(e.kseed, e.klen), e.klen, NormSeed(e.seed, e.len), e.len>>)
                            /\ UNCHANGED st
